@@ -1572,6 +1572,16 @@ func reusePhase(r *ev.Run, vers []int) {
 			// first inputs: every second input (successful or not), plus inputs rejected before
 			// anything is recorded
 			firsts := append(append([]string{}, ins...), "", "/", "XX:Y", "n/a", "CVSS:3.1", "CVSS:3.1/XX:Y", "CVSS:4.0/AV:N", "CVSS:3.1/AV:Q")
+			if ver == 3 {
+				// first inputs that fail on an optional metric's value (the decoders store a value before
+				// they check it): a later decode that does not mention that metric must not hand out
+				// the object as usable (round 5, C12-B-r5)
+				for _, m := range spec.UpTo(3, level) {
+					if m.Level > 0 {
+						firsts = append(firsts, "CVSS:3.1/"+m.Name+":Z", "CVSS:3.0/"+m.Name+":Q/AV:N")
+					}
+				}
+			}
 			if ver == 2 {
 				// v2 only (the final comparison with the re-encoding keeps the pinned decoders strict):
 				// first inputs that fail after a single optional token, alone or in pairs
